@@ -390,3 +390,76 @@ def path_conditions(root, node, stop_at=None):
   for t, pol in raw:
     add(t, pol)
   return out
+
+
+def carried_previous_deviations(fn, loop):
+  """[(compare, carried name, current expr, deviating assignment, rhs)]: inside `loop` a loop-carried variable X is compared for
+  (in)equality with an expression A of the current iteration - X plays "the A of the previous iteration" - but some assignment
+  to X in the loop stores something that is not A: a constant (a clamped value) or the result of a call (a derived value).
+  The comparison then no longer relates two iterations' A."""
+  out = []
+  targets = set(n.id for n in ast.walk(loop.target) if isinstance(n, ast.Name)) if isinstance(loop, ast.For) else set()
+  stores = {}
+  for st in walk_stmts(loop):
+    if isinstance(st, ast.Assign):
+      # plain, chained (a = b = v) and tuple assignments
+      for t in st.targets:
+        if isinstance(t, ast.Name):
+          stores.setdefault(t.id, []).append((st, st.value))
+        elif isinstance(t, (ast.Tuple, ast.List)) and isinstance(st.value, (ast.Tuple, ast.List)) and len(t.elts) == len(st.value.elts):
+          for e, v in zip(t.elts, st.value.elts):
+            if isinstance(e, ast.Name):
+              stores.setdefault(e.id, []).append((st, v))
+  for c in ast.walk(loop):
+    if not (isinstance(c, ast.Compare) and len(c.ops) == 1 and isinstance(c.ops[0], (ast.Eq, ast.NotEq))):
+      continue
+    for x, a in ((c.left, c.comparators[0]), (c.comparators[0], c.left)):
+      if not (isinstance(x, ast.Name) and x.id in stores and x.id not in targets):
+        continue
+      if isinstance(a, ast.Constant) or (isinstance(a, ast.Name) and a.id in stores and a.id not in targets and not _iteration_local(loop, a.id, stores)):
+        continue
+      a_txt = norm_text(expand_locals(loop, a, at=c) if isinstance(loop, (ast.FunctionDef,)) else a)
+      a_names = set(n.id for n in ast.walk(a) if isinstance(n, ast.Name))
+      for st, rhs in stores[x.id]:
+        r_txt = norm_text(rhs)
+        if r_txt == a_txt or r_txt == norm_text(a):
+          continue
+        # an iteration-local alias of A (index = chord.step - start; prev = index)
+        if isinstance(rhs, ast.Name) and rhs.id in stores and len(stores[rhs.id]) == 1 and norm_text(stores[rhs.id][0][1]) == norm_text(a):
+          continue
+        if isinstance(a, ast.Name) and a.id in stores and len(stores[a.id]) == 1 and norm_text(stores[a.id][0][1]) == r_txt:
+          continue
+        derived = isinstance(rhs, ast.Name) and rhs.id in stores and any(isinstance(v, ast.Call) for _s, v in stores[rhs.id])
+        if const_value(rhs) is not None or derived:
+          out.append((c, x.id, a, st, rhs))
+  return out
+
+
+def _iteration_local(loop, name, stores):
+  """name is assigned exactly once in the loop, at the top level of its body, before any use: an alias of this iteration."""
+  return len(stores.get(name, [])) == 1 and any(stores[name][0][0] is s for s in loop.body)
+
+
+def reachable_nodes(fi, depth=2):
+  """AST nodes of `fi`, of the module-level functions it calls (transitively, `depth` levels) and of the values of the
+  module-level names (bound once) that any of them reads: everything a function can "mention" without leaving its module.
+  Used by necessary-condition rules of the form "a function that does X must refer to Y somewhere"."""
+  mod = fi.module
+  seen, todo, nodes = set(), [(fi, 0)], []
+  while todo:
+    f, d = todo.pop()
+    if f.qualname in seen:
+      continue
+    seen.add(f.qualname)
+    ns = list(ast.walk(f.node))
+    nodes.extend(ns)
+    if d < depth:
+      for c in ns:
+        if isinstance(c, ast.Call):
+          g = mod.functions.get(dotted(c.func) or '')
+          if g is not None:
+            todo.append((g, d + 1))
+  for n in list(nodes):
+    if isinstance(n, ast.Name) and len(mod.assigns.get(n.id, [])) == 1:
+      nodes.extend(ast.walk(mod.assigns[n.id][0]))
+  return nodes
